@@ -705,6 +705,22 @@ func c06_5(c *core.Ctx, p *core.Prog) {
 		c.Undecided("anchors", pos, core.FuncName(fn), "wait function shape not recognised")
 		return
 	}
+	// (o) the waiter leaves only for its own outcome or its own context: no other arm
+	{
+		var other []string
+		for k, st := range sel.States {
+			if k == recvK || k == doneK {
+				continue
+			}
+			other = append(other, fmt.Sprintf("%s on %s", map[types.ChanDir]string{types.RecvOnly: "receive", types.SendOnly: "send"}[st.Dir], core.AccessPath(st.Chan)))
+		}
+		if !sel.Blocking {
+			other = append(other, "default arm")
+		}
+		c.Check(len(other) == 0, "wait|arms", pos, core.FuncName(fn),
+			"the waiter waits for its responses and its own context only",
+			"the waiter can stop waiting for a reason other than its responses or its own context ("+strings.Join(other, "; ")+"): it then reports something that is not the outcome of its items (they may still be exported successfully, or fail), and the export goroutines of its outstanding parts are left with nobody to answer")
+	}
 	recvArm, ok1 := selectArm(sel, recvK)
 	// (i) countdown
 	var dec *ssa.BinOp
